@@ -8,6 +8,8 @@ import (
 	"math/rand"
 	"os"
 	"regexp"
+	"sort"
+	"strings"
 	"sync"
 	"time"
 
@@ -67,10 +69,54 @@ func cmdRSA(args []string) {
 		l := l
 		byName[l.Name] = &l
 	}
+	// siblings: registered lints whose name ends in the name of an anchored key-quality lint (the same rule under another source,
+	// e.g. e_smime_rsa_public_exponent_too_small): judged by the anchored rule's predicate, at the level their own prefix gives
+	aliasOf := map[string]string{}
+	allRSA := append([]string{}, rsaLints...)
+	var regNames []string
+	for n := range byName {
+		regNames = append(regNames, n)
+	}
+	sort.Strings(regNames)
+	for _, n := range regNames {
+		anchored := false
+		for _, a := range rsaLints {
+			if a == n {
+				anchored = true
+			}
+		}
+		if anchored || len(n) < 3 {
+			continue
+		}
+		for _, a := range rsaLints {
+			if strings.HasSuffix(n[2:], a[2:]) && a != "e_rsa_fermat_factorization" {
+				aliasOf[n] = a
+				allRSA = append(allRSA, n)
+				break
+			}
+		}
+	}
+	rulesOf := func(names []string) []string {
+		out := make([]string, len(names))
+		for i, n := range names {
+			out[i] = n
+			if a := aliasOf[n]; a != "" {
+				out[i] = a
+			}
+		}
+		return out
+	}
+	levelsOf := func(names []string) []int {
+		out := make([]int, len(names))
+		for i, n := range names {
+			out[i] = map[byte]int{'e': 6, 'w': 5, 'n': 4}[n[0]]
+		}
+		return out
+	}
 	// templates: for every key lint, up to two corpus certificates with an RSA key on which it currently judges
 	tmplSet := map[string]*rsaTemplate{}
 	forLint := map[string][]string{}
-	for _, name := range rsaLints {
+	for _, name := range allRSA {
 		l := byName[name]
 		if l == nil {
 			continue
@@ -113,7 +159,7 @@ func cmdRSA(args []string) {
 	// lints per template
 	lintsFor := map[string][]string{}
 	var tmplIDs []string
-	for _, name := range rsaLints {
+	for _, name := range allRSA {
 		for _, tid := range forLint[name] {
 			if _, ok := lintsFor[tid]; !ok {
 				tmplIDs = append(tmplIDs, tid)
@@ -202,7 +248,7 @@ func cmdRSA(args []string) {
 			if rounds < 0 {
 				rounds = 100 // the documented default
 			}
-			smallEv[i] = append(smallEv[i], ev.M{"ev": "SmallKey", "n": m, "e": cb[0], "rounds": rounds, "configured": cb[1] >= 0, "lints": names, "st": st, "factorsOK": fok, "parsed": parsed})
+			smallEv[i] = append(smallEv[i], ev.M{"ev": "SmallKey", "n": m, "e": cb[0], "rounds": rounds, "configured": cb[1] >= 0, "lints": names, "rules": rulesOf(names), "levels": levelsOf(names), "st": st, "factorsOK": fok, "parsed": parsed})
 		}
 	})
 	for _, es := range smallEv {
@@ -273,7 +319,7 @@ func cmdRSA(args []string) {
 		}
 		for _, e := range []int64{65537, 3, 1, 2, 65536} {
 			names, st, fok, parsed := run(n, e, -1)
-			emit(ev.M{"ev": "BigKey", "bits": L, "even": false, "small": false, "fermat": false, "e": e, "rounds": 100, "lints": names, "st": st, "factorsOK": fok, "parsed": parsed})
+			emit(ev.M{"ev": "BigKey", "bits": L, "even": false, "small": false, "fermat": false, "e": e, "rounds": 100, "lints": names, "rules": rulesOf(names), "levels": levelsOf(names), "st": st, "factorsOK": fok, "parsed": parsed})
 		}
 		// (b) a planted small divisor d (prime or not); the cofactor is coprime to every prime below 752.
 		//     Fermat is not judged on these (the cofactor is not prime): rounds = 0 through the configuration.
@@ -287,7 +333,7 @@ func cmdRSA(args []string) {
 				}
 			}
 			names, st, fok, parsed := run(m, 65537, 0)
-			emit(ev.M{"ev": "BigKey", "bits": L, "even": d%2 == 0, "small": true, "fermat": false, "e": 65537, "rounds": 0, "lints": names, "st": st, "factorsOK": fok, "parsed": parsed})
+			emit(ev.M{"ev": "BigKey", "bits": L, "even": d%2 == 0, "small": true, "fermat": false, "e": 65537, "rounds": 0, "lints": names, "rules": rulesOf(names), "levels": levelsOf(names), "st": st, "factorsOK": fok, "parsed": parsed})
 		}
 		// (c) close primes: q = nextprime(p + gap); the iteration at which Fermat meets (p+q)/2 is computed with math/big
 		if fermatLens[L] {
@@ -308,7 +354,7 @@ func cmdRSA(args []string) {
 				for _, rr := range []int{0, 1, 100, 10000} {
 					found := idx.IsInt64() && idx.Int64() < int64(rr)
 					names, st, fok, parsed := run(m, 65537, rr)
-					emit(ev.M{"ev": "BigKey", "bits": m.BitLen(), "even": false, "small": !noSmall(m), "fermat": found, "e": 65537, "rounds": rr, "lints": names, "st": st,
+					emit(ev.M{"ev": "BigKey", "bits": m.BitLen(), "even": false, "small": !noSmall(m), "fermat": found, "e": 65537, "rounds": rr, "lints": names, "rules": rulesOf(names), "levels": levelsOf(names), "st": st,
 						"factorsOK": fok, "parsed": parsed, "fermatIdx": idx.String()})
 				}
 			}
